@@ -11,6 +11,8 @@ import (
 	"errors"
 	"fmt"
 	"io"
+	"net"
+	"os"
 
 	sshfx "github.com/pkg/sftp/internal/encoding/ssh/filexfer"
 	"github.com/pkg/sftp/internal/encoding/ssh/filexfer/openssh"
@@ -49,6 +51,7 @@ type c08reader struct {
 	off   int
 	chunk int
 	end   error // what the reader reports once the input is exhausted (nil = io.EOF)
+	polls int   // reads made after the input was exhausted
 }
 
 // c08readerEnd is picked up by every reader created while it is set: the stream then ends with a
@@ -61,6 +64,10 @@ func c08newReader(b []byte, chunk int) *c08reader {
 
 func (r *c08reader) Read(p []byte) (int, error) {
 	if r.off >= len(r.b) {
+		if r.polls++; r.polls > 64 {
+			// a decoder that keeps reading a stream that has failed never returns: reported as a panic
+			panic("the reader has reported the end of the stream 64 times and is still being read (endless retry)")
+		}
 		if r.end != nil {
 			return 0, r.end
 		}
@@ -76,6 +83,7 @@ func (r *c08reader) Read(p []byte) (int, error) {
 }
 
 var errC08Reset = errors.New("transport reset")
+var errC08Timeout error = &net.OpError{Op: "read", Net: "pipe", Err: os.ErrDeadlineExceeded}
 
 const c08maxFrame = 256 * 1024
 
@@ -211,6 +219,13 @@ func c08twice(f func(chunk int) string) string {
 	c08readerEnd = nil
 	if len(b) > 4 && b[:4] == "BAD:" {
 		return b + " (stream ending with a transport error)"
+	}
+	// ... and with a timeout-class error that every later read repeats (an expired read deadline)
+	c08readerEnd = errC08Timeout
+	b = f(0)
+	c08readerEnd = nil
+	if len(b) > 4 && b[:4] == "BAD:" {
+		return b + " (stream ending with a timeout error)"
 	}
 	return a
 }
@@ -354,10 +369,10 @@ func c08entries() []c08entry {
 	add("wire.unmarshalStringSafe", 'A', func(in []byte) string { _, _, err := unmarshalStringSafe(in); return c08res(err) })
 
 	// ---------------- filexfer codec ----------------
-	es = append(es, c08entry{name: "fx.RawPacket.ReadFrom", level: 'S', framing: true, frames: 6, run: func(in []byte) string {
+	es = append(es, c08entry{name: "fx.RawPacket.ReadFrom", level: 'S', framing: true, frames: 8, run: func(in []byte) string {
 		return c08twice(func(chunk int) string { return c08fxRaw(in, chunk) })
 	}})
-	es = append(es, c08entry{name: "fx.RequestPacket.ReadFrom", level: 'S', framing: true, frames: 6, run: func(in []byte) string {
+	es = append(es, c08entry{name: "fx.RequestPacket.ReadFrom", level: 'S', framing: true, frames: 8, run: func(in []byte) string {
 		return c08twice(func(chunk int) string { return c08fxReq(in, chunk) })
 	}})
 	add("fx.RawPacket.UnmarshalBinary", 'T', func(in []byte) string { var p sshfx.RawPacket; return c08res(p.UnmarshalBinary(in)) })
